@@ -73,6 +73,11 @@ FIRST = {
     'e09-C09': 'caught',
     'e05-C05': 'missed -> new rule L6 (no call-spanning scratch state: function-local statics are once-initialised values, locks or locked caches)',
     'e13-C13': 'caught',
+    'f01-C04': 'caught', 'f02-C07': 'caught', 'f04-C11': 'caught', 'f05-C12': 'caught', 'f07-C15': 'caught', 'f09-C17': 'caught',
+    'f03-C08': 'missed -> N2 returns-after-the-children (a return of the backwards walkers follows a loop over the children, or sits in the Leaf / None arm); N1 / N2 now also decide C08',
+    'f06-C14': 'missed -> A1: the treespec\'s own members and locals that are also stored into a member are not fresh; no `mutable` data member in PyTreeSpec / Node',
+    'f08-C16': 'missed by C16 (K3 reported it under C03) -> I1 raw-items: a raw item array taken from a sequence is not read across user code',
+    'f10-C19': 'missed -> DC5 uses-the-class-the-stdlib-returns',
     'c03-C03': 'missed by C03 (D2 reported it under C02 / C13) -> D2 now also decides C03',
     'c02-C02': 'missed by C02 (T3 reported it under C17 / C18) -> T1, T3, T3b now also decide C02',
     'c01-C01': 'missed by C01 (the same change as b10, written independently; DC1 reported it under C19) -> DC1 and DC4 now also decide C01',
